@@ -210,7 +210,20 @@ def gen_block(rng, profile='contractive', T=None, n=None, rich=True, allow_user_
         eqs.append([v, join_terms(terms, const)])
         row_sums[v] = used
     for p in par_names:
-        eqs.append([p, repr(par_vals[p])])
+        txt = repr(par_vals[p])
+        r_ = rng.random()
+        if r_ < 0.2:
+            # a constant written as an expression (no names in it): '1.0 - 0.4', '3/4', '(0.25)'
+            a_ = round(rng.uniform(0.05, 0.6), 2)
+            b_ = round(par_vals[p] + a_, 6)
+            txt = '%s - %s' % (repr(b_), repr(a_))
+            par_vals[p] = eval(txt)
+        elif r_ < 0.3:
+            num = rng.choice([1, 1, 3])
+            den = rng.choice([4, 5, 8])
+            txt = '%d/%d' % (num, den)
+            par_vals[p] = num / den
+        eqs.append([p, txt])
     if rich and rng.random() < 0.15:
         # an integer-valued constant that nothing refers to (k=0 value is an int), and one something refers to
         eqs.append(['n0', repr(rng.randint(1, 9))])
